@@ -52,8 +52,16 @@ type jitterReader struct {
 	// returned together with io.EOF, as zip-backed pools and many network
 	// readers do. Allowed by the io.Reader contract.
 	dataErr bool
+	noPause bool
 	pending []byte
 	err     error
+}
+
+// NewSlicedReader wraps r so that it returns generated short reads (no pauses)
+// and, when the first jitter byte is odd, its last bytes together with io.EOF.
+func NewSlicedReader(r io.Reader, j *Jitter) io.Reader {
+	dataErr := j != nil && len(j.B) > 0 && j.B[0]&1 == 1
+	return &jitterReader{r: r, j: j, dataErr: dataErr, noPause: true}
 }
 
 func (jr *jitterReader) Read(p []byte) (int, error) {
@@ -65,7 +73,9 @@ func (jr *jitterReader) Read(p []byte) (int, error) {
 		}
 		p = p[:n]
 	}
-	jr.j.Pause(jr.j.Next())
+	if !jr.noPause {
+		jr.j.Pause(jr.j.Next())
+	}
 	if !jr.dataErr {
 		return jr.r.Read(p)
 	}
